@@ -47,10 +47,80 @@ structure Mode where
   sup : Bool := false
   deriving Repr, DecidableEq
 
-/-- the variants: every (transitive) subclass with include_subtypes, plus the root itself with
+/-- position of a class in definition order -/
+def posOf (cs : List Cls) (i : Nat) : Nat := (cs.findIdx? (fun c => c.id == i)).getD cs.length
+
+/-- the chain of definition positions from the topmost ancestor down to class `i`: comparing these
+    chains lexicographically is the depth-first preorder of `iter_all_subclasses` (a class before
+    its subclasses, siblings in definition order = `__subclasses__()` order) -/
+def pathKey (cs : List Cls) : Nat → Nat → List Nat
+  | 0, _ => []
+  | fuel + 1, i =>
+      match findCls cs i with
+      | none => []
+      | some c =>
+          (match c.parent with
+           | none => []
+           | some p => pathKey cs fuel p) ++ [posOf cs i]
+
+def lexLe : List Nat → List Nat → Bool
+  | [], _ => true
+  | _ :: _, [] => false
+  | a :: as, b :: bs => a < b || (a == b && lexLe as bs)
+
+/-- insertion sort by a key order (structural recursion: evaluates inside `decide`) -/
+def insertBy (le : Cls → Cls → Bool) (x : Cls) : List Cls → List Cls
+  | [] => [x]
+  | y :: ys => if le x y then x :: y :: ys else y :: insertBy le x ys
+
+def isort (le : Cls → Cls → Bool) : List Cls → List Cls
+  | [] => []
+  | x :: xs => insertBy le x (isort le xs)
+
+theorem mem_insertBy (le : Cls → Cls → Bool) (x a : Cls) : ∀ (l : List Cls), a ∈ insertBy le x l ↔ a = x ∨ a ∈ l
+  | [] => by simp [insertBy]
+  | y :: ys => by
+      simp only [insertBy]
+      split
+      · simp
+      · simp only [List.mem_cons, mem_insertBy le x a ys]
+        constructor
+        · rintro (h | h | h)
+          · exact Or.inr (Or.inl h)
+          · exact Or.inl h
+          · exact Or.inr (Or.inr h)
+        · rintro (h | h | h)
+          · exact Or.inr (Or.inl h)
+          · exact Or.inl h
+          · exact Or.inr (Or.inr h)
+
+theorem mem_isort (le : Cls → Cls → Bool) (a : Cls) : ∀ (l : List Cls), a ∈ isort le l ↔ a ∈ l
+  | [] => by simp [isort]
+  | x :: xs => by simp only [isort, mem_insertBy, mem_isort le a xs, List.mem_cons]
+
+/-- the variants IN THE ORDER THE RESCAN VISITS THEM (`(*iter_all_subclasses(base), base)`): every
+    (transitive) subclass with include_subtypes, depth first, then the root itself with
     include_supertypes -/
 def eligible (cs : List Cls) (root : Nat) (m : Mode) : List Cls :=
-  cs.filter (fun c => (m.sub && isDesc cs root cs.length c.id) || (m.sup && c.id == root))
+  (isort (fun a b => lexLe (pathKey cs (cs.length + 1) a.id) (pathKey cs (cs.length + 1) b.id))
+      (cs.filter (fun c => m.sub && isDesc cs root cs.length c.id)))
+    ++ cs.filter (fun c => m.sup && c.id == root && !(m.sub && isDesc cs root cs.length c.id))
+
+theorem mem_eligible (cs : List Cls) (root : Nat) (m : Mode) (x : Cls) :
+    x ∈ eligible cs root m ↔ x ∈ cs ∧ ((m.sub && isDesc cs root cs.length x.id) || (m.sup && x.id == root)) = true := by
+  simp only [eligible, List.mem_append, mem_isort, List.mem_filter]
+  constructor
+  · rintro (⟨h1, h2⟩ | ⟨h1, h2⟩)
+    · exact ⟨h1, by simp [h2]⟩
+    · refine ⟨h1, ?_⟩
+      simp only [Bool.and_eq_true, Bool.not_eq_true'] at h2
+      simp [h2.1.1, h2.1.2]
+  · rintro ⟨h1, h2⟩
+    by_cases hd : (m.sub && isDesc cs root cs.length x.id) = true
+    · exact Or.inl ⟨h1, hd⟩
+    · refine Or.inr ⟨h1, ?_⟩
+      simp only [hd, Bool.false_or] at h2
+      simp [h2, hd]
 
 def lookup (reg : List (Nat × String × Nat)) (root : Nat) (t : String) : Option Nat :=
   (reg.find? (fun e => e.1 == root && e.2.1 == t)).map (·.2.2)
